@@ -407,6 +407,10 @@ class _GitFile(IO[bytes]):
                     # Windows versions prior to Vista don't support atomic
                     # renames
                     _fancy_rename(self._lockfilename, self._filename)
+            # The lock file is gone (renamed over the target). Do not let
+            # abort() below unlink a lock file that another writer may
+            # have created in the meantime.
+            self._closed = True
         finally:
             self.abort()
 
